@@ -40,6 +40,20 @@ func (e *Env) runJob(j *Job) {
 	args := []string{"-world", j.World, "-prop", j.Prop, "-variant", j.Variant, "-seed", fmt.Sprint(e.Seed), "-from", fmt.Sprint(j.From), "-n", fmt.Sprint(j.N)}
 	args = append(args, "-noselftest")
 	args = append(args, j.Extra...)
+	var stallEnv []string
+	if j.World == "stall" {
+		// a test binary (testing/synctest): parameters go in the environment
+		stallEnv = []string{"VERIF_STALL=1", "VERIF_STALL_PROP=" + j.Prop, fmt.Sprintf("VERIF_STALL_SEED=%d", e.Seed), fmt.Sprintf("VERIF_STALL_FROM=%d", j.From), fmt.Sprintf("VERIF_STALL_N=%d", j.N)}
+		for i, x := range j.Extra {
+			if x == "-replay" && i+1 < len(j.Extra) {
+				stallEnv = append(stallEnv, "VERIF_STALL_REPLAY="+j.Extra[i+1])
+			}
+			if x == "-tape" {
+				stallEnv = append(stallEnv, "VERIF_STALL_FULL=1")
+			}
+		}
+		args = []string{"-test.run", "^TestStallWorld$", "-test.count=1", "-test.timeout=20m"}
+	}
 	cmd := exec.Command(j.Bin, args...)
 	cmd.Dir = e.WorkDir
 	// One P per simulation process: every world is single-threaded or
@@ -55,7 +69,7 @@ func (e *Env) runJob(j *Job) {
 	if procs == 0 {
 		procs = ProcsFor(j.From)
 	}
-	cmd.Env = append(append(os.Environ(), fmt.Sprintf("GOMAXPROCS=%d", procs), fmt.Sprintf("VERIF_DEPTH=%d", e.Depth)), j.Env...)
+	cmd.Env = append(append(os.Environ(), fmt.Sprintf("GOMAXPROCS=%d", procs), fmt.Sprintf("VERIF_DEPTH=%d", e.Depth)), append(stallEnv, j.Env...)...)
 	var stdout, stderr bytes.Buffer
 	cmd.Stdout, cmd.Stderr = &stdout, &stderr
 	t0 := time.Now()
